@@ -170,6 +170,7 @@ def run(rep):
     if DOM is None:
         raise AnalysisError(f"{file}: dominance flag not recognised")
     bad = []
+    undecided_step = []
     for isn in (True, False):
         def oracle(c, isn=isn):
             if c[0] == 'call' and c[1] == 'isnan':
@@ -187,9 +188,30 @@ def run(rep):
         except Undecided as ex:
             bad.append(f"nan={isn}: {ex}")
             continue
-        fins = [f_ for f_ in ce.finals if f_[2] in ("end", "ContinueStmt")]
+        fins = [f_ for f_ in ce.finals if f_[2] in ("end", "ContinueStmt", "BreakStmt")]
+        if fins and any(f_[1] for f_ in fins) and not isn:
+            # the step branches on the comparison itself: flag kept when strictly better, cleared (possibly leaving the loop) otherwise
+            CMP = f"orientation*{DIFF} > 0"
+            okb = True
+            for env_, conds_, how_ in fins:
+                tr = [t for c, t in conds_ if cq.same_cond(c, CMP, False)] + [not t for c, t in conds_ if cq.same_cond(c, f"!({CMP})", False) or cq.same_cond(c, f"orientation*{DIFF} <= 0", False)]
+                if len(tr) != len(conds_) or len(set(tr)) != 1:
+                    okb = None
+                    break
+                got = env_.get(DOM, ('sym', 'D0'))
+                if tr[0] and not cq.same_expr(got, "D0"):
+                    okb = False
+                if not tr[0] and not (cq.same_expr(got, "0") or cq.same_expr(got, "D0*0")):
+                    okb = False
+                if how_ == "BreakStmt" and tr[0]:
+                    okb = False
+            if okb is None:
+                undecided_step.append(f"nan={isn}: tests outside the comparison vocabulary")
+            elif not okb:
+                bad.append("the flag is not kept exactly when the other point is strictly better in this coordinate")
+            continue
         if not fins or any(f_[1] for f_ in fins):
-            bad.append(f"nan={isn}: undecided test")
+            undecided_step.append(f"nan={isn}: undecided test")
             continue
         for env_, _c, _h in fins:
             got = env_.get(DOM, ('sym', 'D0'))
@@ -201,7 +223,27 @@ def run(rep):
                 want2 = ('mul', ('sym', 'D0'), ('cmp', '<', num(0), ('mul', ('sym', 'orientation'), cq.parse(DIFF))))
                 if not (cq.same_expr(got, want) or cq.same_expr(got, want2)):
                     bad.append(f"flag becomes {show(got)[:120]}, expected flag * (orientation*(x_j - x_i) > 0)")
-    rep.check(not bad, "R20.b", file, "c_paretofront", "coordinate step: NaN differences skipped, otherwise flag *= (orientation * (x_j[k] - x_i[k]) > 0) (strict; the other point minus the point)",
+    # what the missing-value test looks at: the difference, or both of its operands; one operand alone lets a NaN of the other through
+    nan_args = []
+    for n_ in find_all(l3, lambda n: n.get("kind") in ("IfStmt", "ConditionalOperator")):
+        try:
+            ce_ = to_expr(n_["inner"][0], {})
+        except Undecided:
+            continue
+        for x in pq.find(ce_, lambda y: pq.call_named(y, "isnan") and len(y[2]) == 1):
+            nan_args.append(x[2][0])
+        for x in pq.find(ce_, lambda y: y[0] == 'cmp' and y[1] == '!=' and y[2] == y[3]):
+            nan_args.append(x[2])
+    if nan_args:
+        A_, B_ = f"data[ncol*{jv}+{kv}]", f"data[ncol*{iv}+{kv}]"
+        on_diff = any(cq.same_expr(x, f"{A_} - {B_}") or cq.same_expr(x, f"orientation*({A_} - {B_})") for x in nan_args)
+        on_a, on_b = any(cq.same_expr(x, A_) for x in nan_args), any(cq.same_expr(x, B_) for x in nan_args)
+        if not on_diff and (on_a != on_b):
+            bad.append(f"the missing-value test looks at {'the other point' if on_a else 'the point'} only: a NaN coordinate of {'the point' if on_a else 'the other point'} is compared")
+    if undecided_step and not bad:
+        rep.undecided("R20.b", file, "c_paretofront", "coordinate step: NaN differences skipped, otherwise flag *= (orientation * (x_j[k] - x_i[k]) > 0)", "; ".join(undecided_step), line=l3.get("_line"))
+    else:
+        rep.check(not bad, "R20.b", file, "c_paretofront", "coordinate step: NaN differences skipped, otherwise flag *= (orientation * (x_j[k] - x_i[k]) > 0) (strict; the other point minus the point)",
               "; ".join(dict.fromkeys(bad)), line=l3.get("_line"))
     pre2 = cq.evaluate(cq.preceding(s2, l3), oracle=lambda c: False if cq.same_cond(c, f"{iv} == {jv}", True) else None)
     penv2 = pre2.finals[-1][0] if pre2.finals else {}
@@ -276,7 +318,11 @@ def run(rep):
             lab_full = _labels(idx)
             lev = [f"{WQ}[0]", f"{BQ}[0]", "50", f"{BQ}[1]", f"{WQ}[1]"]
             okl = lab_full is not None and len(lab_full) == 5 and all(pq.same(a_, b_) or (b_ == "50" and a_ == ('sym', "'50.0%'")) for a_, b_ in zip(lab_full, lev))
-            rep.check(okl, "R20.c", "plot/boxplot.py", "boxplot_stats", "percentile labels formatted from the same levels, in the same order", "", line=bs.lineno)
+            if lab_full is None:
+                rep.undecided("R20.c", "plot/boxplot.py", "boxplot_stats", "percentile labels formatted from the same levels, in the same order",
+                              f"label construction not recognised: {show(idx)[:80] if idx else None}", line=bs.lineno)
+            else:
+                rep.check(okl, "R20.c", "plot/boxplot.py", "boxplot_stats", "percentile labels formatted from the same levels, in the same order", "", line=bs.lineno)
             nanlab = None
             for e in sp.effects:
                 if e.kind == 'store' and pq.call_named(e.key, "elem") and e.val == ('nan',):
@@ -352,6 +398,8 @@ def _fmt_level(e):
     """'{0:0.1f}%'.format(level) -> level Expr; a literal '50.0%' -> the literal"""
     if pq.call_named(e, ".format") and e[2][0] == ('sym', "'{0:0.1f}%'") and len(e[2]) == 2:
         return e[2][1]
+    if pq.call_named(e, "fstr") and len(e[2]) == 2 and e[2][1] == ('sym', "'%'"):
+        return e[2][0]                 # f"{level:..}%"  (the builder does not keep the format specification)
     if isinstance(e, tuple) and e[0] == 'sym' and e[1].startswith("'"):
         return e
     return None
